@@ -22,12 +22,19 @@ for sid in ids:
     if rc != 0:
         print(sid, "PATCH DOES NOT APPLY"); results[sid] = {"outcome": "patch does not apply on current /repo"}; continue
     t0 = time.time()
+    evf = "/verif/evidence/%s.json" % prop
+    saved = open(evf).read() if os.path.exists(evf) else None
     try:
         p = subprocess.run(["./check", prop, tier], cwd="/verif", capture_output=True, timeout=3600)
         out = p.stdout.decode("utf-8", "replace")
         rcc = p.returncode
     finally:
         subprocess.run("git -C /repo checkout -- . && git -C /repo clean -fdq", shell=True)
+        # evidence files must only ever come from runs on the unchanged tree
+        if saved is not None:
+            open(evf, "w").write(saved)
+        elif os.path.exists(evf):
+            os.remove(evf)
     vio = [l for l in out.split("\n") if l.startswith("VIOLATION")]
     if rcc == 1 and vio:
         outcome = "detected-without-failing-input" if vio[0].endswith("no-failing-input-found") else "detected-with-replay"
